@@ -32,7 +32,10 @@ fn pfx_str(v4: bool, bits: u128, len: u8) -> String {
     let b = bits & top_mask(len);
     if v4 { format!("{}/{}", Ipv4Addr::from((b >> 96) as u32), len) } else { format!("{}/{}", Ipv6Addr::from(b), len) }
 }
-fn coq_p(p: Prefix) -> String { let (v4, b, l) = fields(p); format!("(P {} {} {})", coq_bool(v4), b, l) }
+/// Left-aligned bits as a Coq term: IPv4 as `(S4 a)` (a << 96), IPv6 as a hexadecimal literal (cheaper to
+/// elaborate than 39 decimal digits).
+fn coq_bits(v4: bool, b: u128) -> String { if v4 { format!("(S4 {})", b >> 96) } else { format!("{:#x}", b) } }
+fn coq_p(p: Prefix) -> String { let (v4, b, l) = fields(p); format!("(P {} {} {})", coq_bool(v4), coq_bits(v4, b), l) }
 fn coq_optp(p: Option<Prefix>) -> String { coq_opt(p.map(coq_p)) }
 
 fn rand_bits(rng: &mut Rng, v4: bool) -> u128 {
@@ -75,7 +78,7 @@ fn gen_covers(rng: &mut Rng, tier: &str) -> Vec<(String, Value)> {
         }
     }
     // (c) structured random: b random, a = b truncated (covers), or with one bit flipped, or unrelated
-    let n = if tier == "thorough" { 20000 } else { 2500 };
+    let n = if tier == "thorough" { 20000 } else { 2000 };
     for _ in 0..n {
         let v4 = rng.chance(1, 2);
         let m = fam_max(v4);
@@ -144,7 +147,7 @@ fn gen_parse(rng: &mut Rng, tier: &str) -> Vec<(String, Value)> {
         }
     }
     // (c) structured random: mostly valid (host bits cleared), some with host bits, some over-long
-    let n = if tier == "thorough" { 20000 } else { 2000 };
+    let n = if tier == "thorough" { 20000 } else { 1200 };
     for _ in 0..n {
         let v4 = rng.chance(1, 2);
         let w = if v4 { 32u32 } else { 128 };
@@ -175,7 +178,7 @@ fn run_parse(input: &Value) -> CaseOut {
         obs: json!({"text": text, "strict": show(strict), "relaxed": show(relaxed), "serde": show(serde_p)}),
         nontrivial: relaxed.is_some(),
         coq: format!("{{| pc_v4 := {}; pc_addr := {}; pc_len := {}; pc_strict := {}; pc_relaxed := {} |}}",
-            coq_bool(v4), addr, len, coq_optp(strict_obs), coq_optp(relaxed)),
+            coq_bool(v4), if v4 { addr.to_string() } else { format!("{:#x}", addr) }, len, coq_optp(strict_obs), coq_optp(relaxed)),
     }
 }
 
@@ -312,11 +315,11 @@ fn gen_validity(rng: &mut Rng, tier: &str) -> Vec<(String, Value)> {
     // empty data set
     for mode in MODES { cases.push(("boundary.empty_set".into(), json!({"vrps": [], "route": ["192.0.2.0/24", 64496], "mode": mode}))); }
     // (c) structured random: 0..30 VRPs around a random route, duplicates sometimes, every mode, batches with decoys
-    let n = if tier == "thorough" { 12000 } else { 1500 };
+    let n = if tier == "thorough" { 12000 } else { 1200 };
     for i in 0..n {
         let mut r = rng.fork();
         let (v4, rbits, rlen, rasn) = rand_route(&mut r);
-        let nv = r.range(0, 30);
+        let nv = r.range(0, 24);
         let mut vrps = Vec::new();
         // bias: some cases without any match so that invalid / reason are reached often
         let allow_match = r.chance(1, 2);
@@ -347,7 +350,16 @@ fn gen_validity(rng: &mut Rng, tier: &str) -> Vec<(String, Value)> {
         r.shuffle(&mut vrps);
         cases.push(("random.large".into(), json!({"vrps": vrps, "route": [pfx_str(v4, rbits, rlen), rasn], "mode": MODES[i % 2]})));
     }
-    cases
+    balance(cases)
+}
+
+/// ./check evaluates the cases in 16 consecutive shards; deal the cases out by size so that the shards
+/// carry the same load (order of cases has no meaning).
+fn balance(mut cases: Vec<(String, Value)>) -> Vec<(String, Value)> {
+    cases.sort_by_key(|c| std::cmp::Reverse(c.1["vrps"].as_array().map(|a| a.len()).unwrap_or(0)));
+    let mut buckets: Vec<Vec<(String, Value)>> = (0..16).map(|_| Vec::new()).collect();
+    for (i, c) in cases.into_iter().enumerate() { buckets[i % 16].push(c); }
+    buckets.into_iter().flatten().collect()
 }
 
 struct Obs { state: u64, reason: u64, desc: u64, lists: [Vec<(RouteOrigin, u64)>; 3], extra_ok: bool }
@@ -409,7 +421,7 @@ fn obs_json(v: &Value, snap: &PayloadSnapshot, route: (Prefix, Asn)) -> Obs {
 
 fn coq_item(o: &RouteOrigin, tag: u64) -> String {
     let (v4, b, l) = fields(o.prefix.prefix());
-    format!("V {} {} {} {} {} {}", coq_bool(v4), b, l, coq_opt(o.prefix.max_len().map(|x| x.to_string())), o.asn.into_u32(), tag)
+    format!("V {} {} {} {} {} {}", coq_bool(v4), coq_bits(v4, b), l, coq_opt(o.prefix.max_len().map(|x| x.to_string())), o.asn.into_u32(), tag)
 }
 
 fn run_validity(input: &Value) -> CaseOut {
@@ -489,7 +501,7 @@ fn run_validity(input: &Value) -> CaseOut {
     let cl = |l: &Vec<(RouteOrigin, u64)>| coq_list(l.iter(), |(x, t)| coq_item(x, *t));
     let coq = format!(
         "{{| c_route := R {} {} {} {}; c_vrps := {}; c_impl := {{| o_state := {}; o_reason := {}; o_desc := {}; o_matched := {}; o_bad_asn := {}; o_bad_len := {} |}} |}}",
-        coq_bool(rv4), rb, rl, asn.into_u32(),
+        coq_bool(rv4), coq_bits(rv4, rb), rl, asn.into_u32(),
         coq_list(snap.origins().enumerate(), |(i, (x, _))| coq_item(&x, i as u64)),
         // a failed side check (route echo, counts, iter_state / write_plain agreement) is reported as an unknown state
         if o.extra_ok { o.state } else { 96 }, o.reason, o.desc, cl(&o.lists[0]), cl(&o.lists[1]), cl(&o.lists[2]));
